@@ -356,6 +356,15 @@ fn run(case: &Case) -> Result<Outcome, V> {
             Ev::QueueAlgo(_) | Ev::SetLink { .. } => unreachable!(),
         };
         let is_command = matches!(ev, Ev::CmdOpen(_) | Ev::CmdCancel(_) | Ev::CmdCancelAll | Ev::CmdCloseAll);
+        if matches!(ev, Ev::CmdCloseAll) {
+            // every second close-all runs with a "flatten everything" close strategy that also cancels the tracked
+            // orders (cancels and opens of one command batch, possibly across a dead and a healthy link)
+            let flatten = idx % 2 == 0;
+            engine.strategy.close_also_cancels.store(flatten, std::sync::atomic::Ordering::Relaxed);
+            if flatten {
+                out.cells.insert("close_all_with_a_close_strategy_that_also_cancels".into());
+            }
+        }
 
         let audit = catch(|| engine.process(engine_event)).map_err(|m| ("panic_in_engine_process", format!("event #{idx} {ev:?}: {m}")))?;
         out.steps += 1;
@@ -932,6 +941,7 @@ fn main() {
         }
         for c in [
             "cancel_of_tracked_order_sent",
+            "close_all_with_a_close_strategy_that_also_cancels",
             "algo_batch_dropped_from_audit:delivered_open",
             "algo_batch_dropped_from_audit:delivered_cancel_of_tracked_order",
             "account_snapshot_not_listing_an_in_flight_order",
